@@ -306,3 +306,124 @@ Section JoinExecute.
     cbn [c_viol c_json c_errs]. rewrite app_nil_r. reflexivity.
   Qed.
 End JoinExecute.
+
+(* ---- E3 with key consistency, through [execute] ---- *)
+Lemma Forall2_map_l {A B} (P : B -> A -> Prop) (g : A -> B) l :
+  Forall (fun a => P (g a) a) l -> Forall2 P (map g l) l.
+Proof. induction 1; cbn; constructor; auto. Qed.
+
+Lemma join_loop_items sc U frags vars fM T sel path es :
+  forall i, fst (join_loop (mono_at sc U frags vars fM T sel) path i es) =
+            map (fun e => ojson (fst (mono_at sc U frags vars fM T sel e))) es.
+Proof.
+  induction es as [|e es IH]; intros i; [reflexivity|]. cbn [join_loop map].
+  specialize (IH (i + 1)). destruct (join_loop _ path (i + 1) es) as [its ers]. cbn [fst] in *. rewrite IH. reflexivity.
+Qed.
+
+Section JoinKeyed.
+  Variable sc : schema.
+  Variable U : universe.
+  Variable frags : list fragment.
+  Variable decls : list (name * list name).
+
+  (* several representations, each built from the key [ks] plus the required leaf fields [rq]:
+     the i-th item is the i-th entity's object *)
+  Theorem entity_join_list_requires_execute fM f vds T sel supplied root fl ks rq es :
+    let vars := effective_vars (entities_op vds T sel) (supplied_members supplied) in
+    let mono := mono_at sc U frags vars fM T sel in
+    key_consistent decls U = true -> In (T, ks) decls ->
+    find_entity U (s_query sc) [] = Some root ->
+    kind_of sc T <> None -> frags_noent frags = true -> sels_noent sel = true ->
+    assoc s_representations vars = Some (JArr (map (fun e => repr_of e (ks ++ rq)) es)) ->
+    flatten sc frags vars fM T sel = FlatOk fl ->
+    Forall (fun e => In e U /\ en_type e = T /\ reqs_covered e fl (ks ++ rq) = true /\
+                     no_oof (snd (mono e)) = true) es ->
+    (fM + 3 <= f)%nat ->
+    execute f sc U Sub (entities_doc vds T sel frags) None supplied =
+    {| rs_data := JObj [(s_entities, JArr (map (fun e => ojson (fst (mono e))) es))];
+       rs_errs := snd (join_loop mono [PN s_entities] 0 es) |}.
+  Proof.
+    intros vars mono Hkc Hd Hroot Hk Hfr Hs Hv Hfl HF Hle.
+    rewrite (entity_join_execute_list sc U frags fM f vds T sel supplied root fl
+               (map (fun e => repr_of e (ks ++ rq)) es) es Hroot Hk Hfr Hs Hv Hfl); [| |exact Hle].
+    - fold vars. fold mono. unfold mono. rewrite join_loop_items. reflexivity.
+    - apply Forall2_map_l. eapply Forall_impl; [|exact HF]. cbn beta.
+      intros e (Hin & HT & Hrq & Hn). split; [|split; [exact HT|split; [|exact Hn]]].
+      + apply find_by_repr_extend. apply (key_consistent_find decls); [exact Hkc|exact Hin|rewrite HT; exact Hd].
+      + apply reqs_covered_agree. exact Hrq.
+  Qed.
+End JoinKeyed.
+
+Section JoinKeyedCorollaries.
+  Variable sc : schema.
+  Variable U : universe.
+  Variable frags : list fragment.
+  Variable decls : list (name * list name).
+
+  (* one representation carrying the key and the required leaf fields *)
+  Theorem entity_join_requires_execute fM f vds T sel supplied root fl ks rq e :
+    let vars := effective_vars (entities_op vds T sel) (supplied_members supplied) in
+    let mono := exec_sels sc U frags vars Mono fM T {| ov_ent := e; ov_repr := None |} sel [] in
+    key_consistent decls U = true -> In (T, ks) decls -> In e U -> en_type e = T ->
+    find_entity U (s_query sc) [] = Some root ->
+    kind_of sc T <> None -> frags_noent frags = true -> sels_noent sel = true ->
+    assoc s_representations vars = Some (JArr [repr_of e (ks ++ rq)]) ->
+    flatten sc frags vars fM T sel = FlatOk fl ->
+    reqs_covered e fl (ks ++ rq) = true ->
+    no_oof (snd mono) = true ->
+    (fM + 3 <= f)%nat ->
+    execute f sc U Sub (entities_doc vds T sel frags) None supplied =
+    {| rs_data := JObj [(s_entities, JArr [ojson (fst mono)])];
+       rs_errs := shift_errs [PN s_entities; PI 0] (snd mono) |}.
+  Proof.
+    intros vars mono Hkc Hd Hin HT Hroot Hk Hfr Hs Hv Hfl Hrq Hn Hle.
+    rewrite (entity_join_list_requires_execute sc U frags decls fM f vds T sel supplied root fl ks rq [e]
+               Hkc Hd Hroot Hk Hfr Hs Hv Hfl); [| |exact Hle].
+    - cbn [map join_loop snd fst]. rewrite app_nil_r. reflexivity.
+    - constructor; [|constructor]. repeat split; assumption.
+  Qed.
+
+  (* E3: no [FReq] field selected, representation = key only *)
+  Theorem entity_join_execute fM f vds T sel supplied root fl ks e :
+    let vars := effective_vars (entities_op vds T sel) (supplied_members supplied) in
+    let mono := exec_sels sc U frags vars Mono fM T {| ov_ent := e; ov_repr := None |} sel [] in
+    key_consistent decls U = true -> In (T, ks) decls -> In e U -> en_type e = T ->
+    find_entity U (s_query sc) [] = Some root ->
+    kind_of sc T <> None -> frags_noent frags = true -> sels_noent sel = true ->
+    assoc s_representations vars = Some (JArr [repr_of e ks]) ->
+    flatten sc frags vars fM T sel = FlatOk fl ->
+    sel_reqs e fl = [] ->
+    no_oof (snd mono) = true ->
+    (fM + 3 <= f)%nat ->
+    execute f sc U Sub (entities_doc vds T sel frags) None supplied =
+    {| rs_data := JObj [(s_entities, JArr [ojson (fst mono)])];
+       rs_errs := shift_errs [PN s_entities; PI 0] (snd mono) |}.
+  Proof.
+    intros vars mono Hkc Hd Hin HT Hroot Hk Hfr Hs Hv Hfl Hrq Hn Hle.
+    apply (entity_join_requires_execute fM f vds T sel supplied root fl ks [] e); try assumption.
+    - rewrite app_nil_r. exact Hv.
+    - apply reqs_covered_nil. exact Hrq.
+  Qed.
+
+  (* several representations, no [FReq] field selected *)
+  Theorem entity_join_list_execute fM f vds T sel supplied root fl ks es :
+    let vars := effective_vars (entities_op vds T sel) (supplied_members supplied) in
+    let mono := mono_at sc U frags vars fM T sel in
+    key_consistent decls U = true -> In (T, ks) decls ->
+    find_entity U (s_query sc) [] = Some root ->
+    kind_of sc T <> None -> frags_noent frags = true -> sels_noent sel = true ->
+    assoc s_representations vars = Some (JArr (map (fun e => repr_of e ks) es)) ->
+    flatten sc frags vars fM T sel = FlatOk fl ->
+    Forall (fun e => In e U /\ en_type e = T /\ sel_reqs e fl = [] /\ no_oof (snd (mono e)) = true) es ->
+    (fM + 3 <= f)%nat ->
+    execute f sc U Sub (entities_doc vds T sel frags) None supplied =
+    {| rs_data := JObj [(s_entities, JArr (map (fun e => ojson (fst (mono e))) es))];
+       rs_errs := snd (join_loop mono [PN s_entities] 0 es) |}.
+  Proof.
+    intros vars mono Hkc Hd Hroot Hk Hfr Hs Hv Hfl HF Hle.
+    apply (entity_join_list_requires_execute sc U frags decls fM f vds T sel supplied root fl ks [] es); try assumption.
+    - erewrite map_ext; [exact Hv|]. intros e. rewrite app_nil_r. reflexivity.
+    - eapply Forall_impl; [|exact HF]. cbn beta. intros e (H1 & H2 & H3 & H4).
+      repeat split; try assumption. apply reqs_covered_nil. exact H3.
+  Qed.
+End JoinKeyedCorollaries.
